@@ -115,13 +115,17 @@ PROPS = {
                     "comparison of everything outside the modelled fields, are evaluated on the real response",
     ),
     "C15": dict(
-        engines=[dict(name="custom", quick=600, thorough=30000, shard=200, trivial_tags=[])],
+        engines=[dict(name="custom", quick=600, thorough=30000, shard=200, trivial_tags=[]),
+                 dict(name="istio", quick=800, thorough=40000, shard=400, trivial_tags=[])],
         rule="seeded generator of (1-3 referenced resources: Istio VirtualService / DestinationRule with the built-in scripts, custom kinds with scripts from a small grammar "
              "(set spec fields from weights, add labels/annotations, insert routes, drop labels/annotations/spec, fail at one weight, return a non-table); objects with nested "
              "generated specs or no spec, nil / empty / non-empty labels and annotations, missing objects, a pre-existing empty snapshot; 1-3 strategies (weights incl. 0/100, "
              "header matches, header modifier) and 1-7 operations (EnsureRoutes with repeats, Finalise)); the real provider runs on a fake client that counts Update calls; "
              "every script evaluation the model needs is supplied by an independent run of the real Lua VM on the stored snapshot (oracle table); non-trivial = every case; "
-             "distinct = distinct input JSON",
+             "distinct = distinct input JSON. istio engine: generated VirtualService specs (http/tcp/tls present or absent, 1-3 rules, rules with match, 1-3 destinations on "
+             "the stable host in short / namespaced / FQDN form or on other hosts, subsets, weights absent/100/split, extra fields), weight 0..100 or none, 0-2 matches, "
+             "canary service equal to the stable one (subset mode), DestinationRule with/without subsets; one real EnsureRoutes with the built-in scripts, result projected "
+             "per rule",
         trusted=["gopher-lua and luamanager evaluate the oracle table (the script is a parameter of the model and of the theorems)",
                  "controller-runtime fake client stores unstructured objects as written"],
         assumptions=["scripts are deterministic functions of their input (no os/time access: C16)", "Update never fails (conflicts are not injected)",
@@ -251,8 +255,10 @@ MANIFEST_TEXT = {
              "step leaves every resource showing exactly script(stored original, step) (steps never accumulate), Finalise restores spec, labels and annotations (nil and empty maps "
              "identified) and removes the snapshot, a repeated step writes nothing and reports done, a second Finalise is a no-op. The Gallina provider (store / compare-and-update "
              "/ restore, error paths included) is compared with the real customController on generated objects, scripts and operation sequences on every run, with the script "
-             "evaluations supplied by an independent run of the real Lua VM.",
-        note="The Istio split clause (100-w / w for a single stable destination, other hosts untouched) is checked by the istio engine; Update failures are not injected; integers "
+             "evaluations supplied by an independent run of the real Lua VM. For the built-in Istio scripts a Gallina model of trafficRouting.lua is proved to split a rule whose only "
+             "destination is the stable service into exactly (100-w, w) and to leave rules with a match or on other hosts untouched, and is compared with the real script run "
+             "through the provider on generated VirtualServices.",
+        note="The Gallina model of the VirtualService script covers the weight path fully and the matches path up to the content of the generated match/headers blocks; Update failures are not injected; integers "
              "above 2^53 in a spec lose precision in the snapshot's JSON round trip (outside the generator, recorded as an observation in DESIGN.md).",
         design_ref="DESIGN.md section 9, C15"),
     "C17": dict(
